@@ -17,9 +17,9 @@ def stateAfter (p : Program) (ops : List Op) : St :=
 theorem NoProj.over {p : Program} (np : NoProj p) : NoProjOverProj p :=
   fun k d hp hk => absurd hk (np k d hp)
 
-theorem stateAfter_inv {p : Program} (wf : WF p) (pf : NoProjOverProj p) (ops : List Op) :
+theorem stateAfter_inv {p : Program} (wf : WF p) (sh : Shape p) (ops : List Op) :
     Inv p (stateAfter p ops) := by
-  have h := runOps_spec wf pf ops {} (Inv.init p)
+  have h := runOps_spec wf sh ops {} (Inv.init p)
   unfold stateAfter
   cases hr : runOps p ops {} with
   | error e => exact Inv.init p
@@ -168,14 +168,14 @@ def exFS : St := stateAfter exF [.sess [.set 0 1, .set 1 5], .round [5], .sess [
 /-- … or after a session that changes the firewall -/
 def exFU : St := stateAfter exF [.sess [.set 0 1, .set 1 5], .round [5], .sess [.set 0 0]]
 
-theorem exFT_inv : Inv exF exFT := stateAfter_inv exF_wf exF_noProj.over _
-theorem exFS_inv : Inv exF exFS := stateAfter_inv exF_wf exF_noProj.over _
-theorem exFU_inv : Inv exF exFU := stateAfter_inv exF_wf exF_noProj.over _
+theorem exFT_inv : Inv exF exFT := stateAfter_inv exF_wf (Or.inl exF_noProj.over) _
+theorem exFS_inv : Inv exF exFS := stateAfter_inv exF_wf (Or.inl exF_noProj.over) _
+theorem exFU_inv : Inv exF exFU := stateAfter_inv exF_wf (Or.inl exF_noProj.over) _
 
 /-- `exA` after the dependency of key 5 switched to firewall 4 and firewall 4's input changed -/
 def exAS : St := stateAfter exA [.sess [.set 0 0, .set 1 7, .set 2 7], .round [6], .sess [.set 0 1], .round [5],
   .sess [.set 2 8]]
-theorem exAS_inv : Inv exA exAS := stateAfter_inv exA_wf exA_noProj.over _
+theorem exAS_inv : Inv exA exAS := stateAfter_inv exA_wf (Or.inl exA_noProj.over) _
 
 theorem exD_pf : NoProjOverProj exD := by
   intro k d h hk
@@ -199,10 +199,70 @@ theorem exC_pf : NoProjOverProj exC := by
 
 /-- `exD` (firewall + projection diamond) after a session that changes the firewall -/
 def exDU : St := stateAfter exD [.sess [.set 0 1, .set 1 5], .round [5], .sess [.set 0 0]]
-theorem exDU_inv : Inv exD exDU := stateAfter_inv exD_wf exD_pf _
+theorem exDU_inv : Inv exD exDU := stateAfter_inv exD_wf (Or.inl exD_pf) _
 
 /-- `exC` before the last round of the F1c history -/
 def exCS : St := stateAfter exC [.sess [.set 0 0, .set 1 5], .round [6], .sess [.set 0 1], .round [6], .sess [.set 1 6]]
-theorem exCS_inv : Inv exC exCS := stateAfter_inv exC_wf exC_pf _
+theorem exCS_inv : Inv exC exCS := stateAfter_inv exC_wf (Or.inl exC_pf) _
+
+-- ------------------------------------------------------------------ class B: static projection chains
+
+/-- key 0: input; 1: firewall over it; 2, 3, 4: a CHAIN OF PROJECTIONS — 2 reads the firewall, 3 reads 2,
+    4 reads 3 and the firewall in one unordered group; 5: normal, reads 4.  Every projection has a
+    value-independent read sequence. -/
+def exS : Program :=
+  [ { kind := .input, prog := .ret 0 },
+    { kind := .firewall, prog := .ask 0 fun a => .ret (if a = 3 then 1 else a) },
+    { kind := .projection, prog := .ask 1 fun a => .ret (a + 1) },
+    { kind := .projection, prog := .ask 2 fun a => .ret (a * 2) },
+    { kind := .projection, prog := .askAll [3, 1] fun vs => .ret (vs.foldl (· + ·) 0) },
+    { kind := .normal, prog := .ask 4 fun a => .ret a } ]
+
+/-- the firewall changes (1 → 2), is absorbed (input 2 → 2), changes back by another route (input 3
+    gives firewall value 1) -/
+def exSOps : List Op :=
+  [ .sess [.set 0 1], .round [5], .sess [.set 0 2], .round [5], .sess [.set 0 2], .round [5],
+    .sess [.set 0 3], .round [5, 3] ]
+
+theorem exS_wf : WF exS := by
+  intro k d h hi he
+  match k, h with
+  | 0, h => simp [exS] at h; subst h; simp at hi
+  | 1, h => simp [exS] at h; subst h; exact ⟨⟨by decide, fun _ => trivial⟩, fun h => by cases h⟩
+  | 2, h =>
+    simp [exS] at h; subst h
+    exact ⟨⟨by decide, fun _ => trivial⟩, fun _ => ⟨Or.inl (by decide), fun _ => trivial⟩⟩
+  | 3, h =>
+    simp [exS] at h; subst h
+    exact ⟨⟨by decide, fun _ => trivial⟩, fun _ => ⟨Or.inr (by decide), fun _ => trivial⟩⟩
+  | 4, h =>
+    simp [exS] at h; subst h
+    refine ⟨⟨fun d hd => ?_, fun _ => trivial⟩, fun _ => ⟨fun d hd => ?_, fun _ => trivial⟩⟩
+    · simp at hd; rcases hd with rfl | rfl <;> decide
+    · simp at hd; rcases hd with rfl | rfl
+      · exact Or.inr (by decide)
+      · exact Or.inl (by decide)
+  | 5, h => simp [exS] at h; subst h; exact ⟨⟨by decide, fun _ => trivial⟩, fun h => by cases h⟩
+  | n + 6, h => simp [exS] at h
+
+theorem exS_static : StaticProj exS := by
+  intro k d h hk
+  match k, h with
+  | 0, h | 1, h | 5, h => simp [exS] at h; subst h; simp at hk
+  | 2, h => simp [exS] at h; subst h; exact ⟨[1], [], rfl, fun _ => rfl⟩
+  | 3, h => simp [exS] at h; subst h; exact ⟨[2], [], rfl, fun _ => rfl⟩
+  | 4, h => simp [exS] at h; subst h; exact ⟨[3, 1], [], rfl, fun _ => rfl⟩
+  | n + 6, h => simp [exS] at h
+
+/-- `exS` is NOT in class A: projection 3 reads projection 2 -/
+theorem exS_not_classA : ¬ NoProjOverProj exS := by
+  intro h
+  have := h 3 { kind := .projection, prog := .ask 2 fun a => .ret (a * 2) } (by simp [exS]) rfl
+  have h2 : kindOf exS 2 = some Kind.firewall := this.1
+  simp [kindOf, exS] at h2
+
+/-- `exS` after the first round and the session that changes the firewall -/
+def exSU : St := stateAfter exS [.sess [.set 0 1], .round [5], .sess [.set 0 2]]
+theorem exSU_inv : Inv exS exSU := stateAfter_inv exS_wf (Or.inr exS_static) _
 
 end Qbice.CoreFw
